@@ -1,4 +1,5 @@
 import PcbV.Lemmas.ClearChain
+import PcbV.Model.Arrays
 /-
   C23 — RUN, CLEAR and NEW reset state; CHAIN keeps exactly the COMMON variables.
 
@@ -401,5 +402,81 @@ theorem copy_free_check_counterexample :
     (match chainWith false false false false [[65, 36]] [] (some ([(10, [])], 50)) none demo with
      | .error (e, t) => (e, t.mem.allowCollect)
      | .ok _ => (0, true)) = (14, false) := by decide
+
+/-! ### "reset" = the state of a fresh session, also for what only LATER behaviour shows
+
+  The OPTION BASE machine of `Arrays` (`PcbV.Arrays`, the model of C12: base, the flag "base implied by DIM",
+  the arrays) is part of the state here (`Mem.base`, `Mem.baseByDim`, `Mem.arrays`).  The flag cannot be read
+  by any single statement: it only decides whether a later ERASE of the last array drops the base.  After
+  CLEAR / NEW / RUN (also RUN to an undefined line) and after a CHAIN without COMMON the whole machine is
+  the one of a fresh session, hence EVERY later history of OPTION BASE / DIM / ERASE / element accesses
+  gives the results it gives in a fresh session. -/
+
+/-- the `Arrays` object inside the memory, as the C12 model sees it (array names become positions, contents
+    are not needed here) -/
+def arrView (m : Mem) : Arrays.State :=
+  { arrs := m.arrays.zipIdx.map (fun xi => (xi.2, ⟨xi.1.2.1.map Int.ofNat, xi.1.2.2.map (fun _ => 0)⟩)),
+    base := m.base.map Int.ofNat,
+    byDim := m.baseByDim }
+
+theorem arrView_fresh_of_reset (s : St) (h : Reset s) : arrView s.mem = Arrays.State.init := by
+  simp [arrView, Arrays.State.init, h.arrays, h.base.1, h.base.2]
+
+/-- after CLEAR, every later array/OPTION BASE history behaves as in a fresh session -/
+theorem clear_equals_fresh (memSize stack : Option Nat) (s s' : St) (h : clearStmt memSize stack s = .ok s')
+    (ops : List Arrays.Op) : Arrays.run (arrView s'.mem) ops = Arrays.run Arrays.State.init ops := by
+  rw [arrView_fresh_of_reset s' (clear_resets_all memSize stack s s' h).1]
+
+theorem new_equals_fresh (s : St) (ops : List Arrays.Op) :
+    Arrays.run (arrView (newStmt s).mem) ops = Arrays.run Arrays.State.init ops := by
+  rw [arrView_fresh_of_reset _ (new_resets_all s).1]
+
+theorem run_equals_fresh (line : Option Nat) (s s' : St) (ops : List Arrays.Op) :
+    (runStmt line s = .ok s' → Arrays.run (arrView s'.mem) ops = Arrays.run Arrays.State.init ops) ∧
+    (∀ e, runStmt line s = .error (e, s') → Arrays.run (arrView s'.mem) ops = Arrays.run Arrays.State.init ops) := by
+  constructor
+  · intro h; rw [arrView_fresh_of_reset s' (run_resets_all line s s' h).1]
+  · intro e h; rw [arrView_fresh_of_reset s' (run_undefined_line_resets_all line s s' e h).2.1]
+
+/-- CHAIN without COMMON (and without ALL) resets the machine completely as well -/
+theorem chain_without_common_equals_fresh (merge : Bool) (file : Option (List (Nat × Bytes) × Nat))
+    (jump : Option Nat) (s s' : St) (h : chainStmt merge false [] [] file jump s = .ok s')
+    (ops : List Arrays.Op) : Arrays.run (arrView s'.mem) ops = Arrays.run Arrays.State.init ops := by
+  have hv : arrView s'.mem = Arrays.State.init := by
+    unfold chainStmt chainWith at h
+    cases file with
+    | none => cases h
+    | some pf =>
+    simp only [chainOpened, Bool.not_true, Bool.false_and, Bool.false_eq_true, if_false] at h
+    split at h
+    · cases h
+    · rename_i s3 hcl
+      have hs3 := chainLoad_ok _ _ _ _ _ hcl
+      unfold chainFinish at h
+      split at h
+      · cases h
+      · rename_i m4 hrc
+        simp only [Except.ok.injEq] at h
+        subst h
+        subst hs3
+        have hsa : (migrateAll s.mem (pick [] s.mem.scalars) (pick [] s.mem.arrays)).2.2 = [] := rfl
+        simp only [if_false, Bool.false_eq_true] at hrc
+        rw [hsa] at hrc
+        obtain ⟨hd, hb⟩ := restoreCommons_byDim _ _ _ _ hrc
+        have ha := (restoreCommons_ok _ _ _ _ _ hrc).2.2.2.1
+        simp only [arrView, Arrays.State.init]
+        show Arrays.State.mk _ (m4.base.map Int.ofNat) m4.baseByDim = _
+        rw [hd, hb]
+        have : m4.arrays = [] := by rw [ha]; rfl
+        simp [this, clearAll, clearMem]
+  rw [hv]
+
+/-- why the flag belongs to the state although no single statement shows it: with a stale "implied by DIM"
+    flag (base unset) the history OPTION BASE 1 / DIM / ERASE / OPTION BASE 0 ends differently (the ERASE
+    drops the explicit base, OPTION BASE 0 is accepted instead of Duplicate Definition) -/
+theorem stale_dim_flag_shows_later :
+    (Arrays.run ⟨[], none, true⟩ [.optionBase true, .dim [(0, [2])], .erase [0], .optionBase false]).2
+      ≠ (Arrays.run Arrays.State.init [.optionBase true, .dim [(0, [2])], .erase [0], .optionBase false]).2 := by
+  decide
 
 end PcbV.C23
